@@ -602,7 +602,8 @@ class SInt:
         # claim: the rendered text is a placeholder
         e.notes['format_placeholder_used'] = True
         e.notes.setdefault('format_args', []).append(self.t)
-        return 0
+        # rendered as FORMAT_BASE + 1-based position in format_args
+        return FORMAT_BASE + len(e.notes['format_args'])
     return e.concretize(self.t, 'index')
 
   def __int__(self):
@@ -613,7 +614,7 @@ class SInt:
       if sys._getframe(1).f_code.co_name in fmt:
         e.notes['format_placeholder_used'] = True
         e.notes.setdefault('format_args', []).append(self.t)
-        return 0
+        return FORMAT_BASE + len(e.notes['format_args'])
     return e.concretize(self.t, 'int()')
 
   def bit_length(self):
@@ -1395,6 +1396,19 @@ def explore(run, max_paths=100000, feas_timeout_ms=2000, max_decisions=20000,
       yield p
     finally:
       CUR = None
+
+
+FORMAT_BASE = 7 * 16**15  # rendering of a symbolic %x / %d argument
+
+
+def format_arg(e, v):
+  """Term of a number parsed from a text rendered with placeholders: either
+  a symbolic format argument (FORMAT_BASE + position) or a literal."""
+  fa = e.notes.get('format_args', [])
+  if FORMAT_BASE < abs(v) <= FORMAT_BASE + len(fa):
+    t = fa[abs(v) - FORMAT_BASE - 1]
+    return -t if v < 0 else t
+  return z3.IntVal(v)
 
 
 def model_int(m, t):
